@@ -150,12 +150,65 @@ def rows(facts, body):
         _t.OPTS['tuple_proj'] = old
 
 
+def _tail_loops(body):
+    """The merge-join loop is the loop that advances both cursors; a loop outside it that only drains ONE of the two
+    iterators into the result (`for x in old_iter { items.push(f(x)) }`) is the explicit form of
+    `items.extend(old_iter.map(f))`. -> (main heads, {tail head: (iterator name, [pushed descriptions], blocks)})"""
+    loops = {}
+    for e in body.back_edges():
+        loops.setdefault(e[1], set()).update(body.natural_loop(e))
+    info = {}
+    for h, blocks in loops.items():
+        its = set()
+        pushes = []
+        for bb in blocks:
+            t = body.blocks[bb]['term']
+            if t['t'] != 'call':
+                continue
+            from .facts import Site as _S, callee_name as _cn
+            nm = (_cn(t) or '').split('::')[-1]
+            if nm == 'next' and t['args']:
+                pl = t['args'][0].get('m') or t['args'][0].get('c')
+                l = _named_local(body, pl, body._names)
+                its.add(body._names.get(l, '?') if l is not None else '?')
+            elif nm == 'push' and len(t['args']) == 2 and 'Vec' not in (_cn(t) or ''):
+                pushes.append(describe(body.origin_of_operand(t['args'][1])))
+            elif nm == 'withdraw' and 'AspaAction' in (_cn(t) or ''):
+                pushes.append('AspaAction::withdraw')
+        info[h] = (its, pushes, blocks)
+    main = [h for h, (its, _p, _b) in info.items() if {'old_iter', 'new_iter'} <= its]
+    tails = {h: (sorted(its)[0], pushes, blocks) for h, (its, pushes, blocks) in info.items()
+             if h not in main and len(its) == 1 and sorted(its)[0] in ('old_iter', 'new_iter') and pushes}
+    return main, tails
+
+
 def _rows(facts, body):
     canonicalise_names(body)
     heads = sorted(set(h for _t, h in body.back_edges()))
+    main, tails = _tail_loops(body)
+    if main and tails:
+        heads = [h for h in heads if h not in tails]
+    else:
+        tails = {}
     out = []
+    seen_rows = set()
     for h in heads:
         for p in enumerate_paths(body, facts, start=h):
+            if tails:
+                # fold a tail loop the path runs into: everything from its head on is `extend(<iterator>.map(..))`
+                cut = None
+                for i, bb in enumerate(p.blocks):
+                    if bb in tails and i > 0:
+                        cut = (i, bb)
+                        break
+                if cut is not None:
+                    i, th = cut
+                    tb = tails[th][2]
+                    keep = set(p.blocks[:i])
+                    p.events = [s for s in p.events if s.bb in keep and s.bb not in tb]
+                    p.conds = [c for c in p.conds if c[2] in keep and c[2] not in tb]
+                    p.kind = 'return'
+                    p._tail = (tails[th][0], sorted(set(tails[th][1])))
             cm = p.cond_map()
             conds = {}
             for v, labs in cm.items():
@@ -163,9 +216,17 @@ def _rows(facts, body):
                     conds['old'] = '|'.join(sorted(labs))
                 elif v == 'var:opt_new':
                     conds['new'] = '|'.join(sorted(labs))
-                elif v.startswith('call:Ord::cmp('):
-                    conds['cmp'] = '|'.join(sorted(labs))
-                    conds['cmp_operands'] = v
+                elif v.startswith('call:Ord::cmp(') or v.startswith('call:Ord>::cmp('):
+                    io = min([v.find(x) for x in ('opt_old', 'old_item') if x in v] or [-1])
+                    inw = min([v.find(x) for x in ('opt_new', 'new_item') if x in v] or [-1])
+                    if io >= 0 and inw >= 0 and inw < io:
+                        # `new.cmp(old)`: the same comparison seen from the other side
+                        mir = {'Less': 'Greater', 'Greater': 'Less', 'Equal': 'Equal'}
+                        conds['cmp'] = '|'.join(sorted(mir.get(x, x) for x in labs))
+                        conds['cmp_operands'] = 'mirrored(opt_old,opt_new): ' + v
+                    else:
+                        conds['cmp'] = '|'.join(sorted(labs))
+                        conds['cmp_operands'] = v
                 else:
                     conds[v] = '|'.join(sorted(labs))
             ev = []
@@ -218,5 +279,12 @@ def _rows(facts, body):
                             if site.bb in p.blocks:
                                 tgt = body.local_name(st['lhs'][0])
                     ev.append(('adv', it, tgt or dest))
+            tl = getattr(p, '_tail', None)
+            if tl is not None:
+                ev.append(('extend', tl[0], tl[1]))
+                key = (str(sorted(conds.items())), str(ev))
+                if key in seen_rows:
+                    continue
+                seen_rows.add(key)
             out.append(dict(kind=p.kind, conds=conds, events=ev, outcome=p.outcome))
     return out
